@@ -111,6 +111,14 @@ def gen_stop_scenario(rnd):
     sc = {'apps': apps, 'trigger': trig, 'drops': drops, 'rounds': 20, 'n': 3, 'pre_start': pre, 'settle_rounds': 3}
     if rnd.random() < 0.2:
         sc['lose'] = [rnd.choice(['n2', 'n3']), rnd.choice([0, 1, 2])]
+    if kind in ('restart', 'shutdown') and rnd.random() < 0.2:
+        # the Master is busy starting an application (two groups, the first one slow to start) when the order comes
+        apps.append({'name': 'S', 'seq': 0, 'procs': [
+            {'name': 's1', 'seq': 1, 'target': rnd.choice(['n1', 'n2']), 'behaviour': 'normal', 'startsecs': 20,
+             'stopwaitsecs': 5},
+            {'name': 's2', 'seq': 2, 'target': rnd.choice(['n1', 'n3']), 'behaviour': 'normal', 'startsecs': 1,
+             'stopwaitsecs': 5}]})
+        sc['busy_start'] = ['n1', 'S']
     if kind in ('restart', 'shutdown') and rnd.random() < 0.15:
         sc['race_order'] = True
     decorate(rnd, sc)
